@@ -450,6 +450,7 @@ func TestC19(t *testing.T) {
 			}
 		}
 	})
+	t.Run("long-histories", runC19Long)
 	t.Run("owners", func(t *testing.T) {
 		iters := 30000
 		if Thorough() {
